@@ -20,7 +20,7 @@ RULE = ("a case is (hash algorithm, secret p as text or bytes - empty, Unicode, 
         "dumps/loads in every format so the same challenges keep their outcome, and a plaintext written by hand into "
         "a document is hashed on load; non-trivial = non-empty p with >= 3 near misses judged; distinct = distinct "
         "case content")
-REQUIRED = ("digests_recomputed", "fresh_salt_checks", "challenge_accepts_p", "challenge_rejects_q", "leak_scans_memory",
+REQUIRED = ("reset_default_checks", "bulk_list_salt_checks", "digests_recomputed", "fresh_salt_checks", "challenge_accepts_p", "challenge_rejects_q", "leak_scans_memory",
             "leak_scans_documents", "roundtrips_digest_unchanged", "plaintext_in_document_hashed", "alg:md5", "alg:sha1",
             "alg:sha224", "alg:sha256", "alg:sha384", "alg:sha512")
 ASSUMPTIONS = ["hashlib is the reference implementation of the six algorithms", "documents are produced/decoded with the "
@@ -119,7 +119,7 @@ def run(case, ctx, res):
         elif place == "list-item":
             cfg.items = [{"pw": p if isinstance(p, str) else p.decode(), "n": 1}, {"n": 2}]
         elif place == "list-of-challenge":
-            cfg.pws = [p, "other-secret"]
+            cfg.pws = [p, "other-secret", p]
         return cfg
 
     def value_of(cfg):
@@ -158,6 +158,37 @@ def run(case, ctx, res):
         if len(set(bytes(v1.salt))) <= 2 and size >= 16:
             res.viol("M-digest", "salt-not-random:" + feat, "salt %s" % bytes(v1.salt).hex())
             return
+    # a reset of a plaintext default must hash again; repeated secrets in one bulk list operation get their own salts
+    if place == "default-plain" and isinstance(p, str):
+        cc.reset_value(cfg1, "pw")
+        res.count("reset_default_checks")
+        r = cfg1.pw
+        if not isinstance(r, cc.DigestValue) or hashlib.new(alg, bytes(r.salt) + pb).digest() != bytes(r.digest):
+            res.viol("M-digest", "reset-leaves-plaintext-default", "after reset_value the challenge field holds %r" % (_short(r),))
+            return
+        if bytes(r.salt) == bytes(v1.salt) and pb:
+            res.viol("M-digest", "salt-reused:reset", "reset_value re-used the salt of the previous value")
+            return
+        v1 = r
+    if place == "list-of-challenge":
+        lst = cfg1.pws
+        res.count("bulk_list_salt_checks")
+        ops = [("assign", lst)]
+        cfg2.pws.extend([p, p])
+        ops.append(("extend", cfg2.pws))
+        cfg2.pws[0:1] = [p, p]
+        ops.append(("slice", cfg2.pws))
+        cfg2.pws += (p, p)
+        ops.append(("iadd", cfg2.pws))
+        for how, l in ops:
+            mine = [bytes(x.salt) for x in l if isinstance(x, cc.DigestValue) and hashlib.new(alg, bytes(x.salt) + pb).digest() == bytes(x.digest)]
+            if len(mine) < 2:
+                res.viol("M-digest", "list-items-not-hashed:" + how, "%s: items of the challenge list are %r" % (how, _short(list(l))))
+                return
+            if len(set(mine)) != len(mine):
+                res.viol("M-digest", "salt-reused:list-" + how, "%s: equal secrets in one list operation share a salt (%d items, %d salts)" % (
+                    how, len(mine), len(set(mine))))
+                return
     # challenges
     for candidate in ([p, pb] + ([pb.decode()] if _decodable(pb) else [])):
         res.count("challenge_accepts_p")
